@@ -1,6 +1,7 @@
 import Sigc.Model
 import Sigc.Run
 import Sigc.Lemmas.EmitMutual
+import Sigc.Lemmas.EmitTeardown
 /-!
 # C03 — slots may connect, disconnect, destroy or re-emit during an emission, safely
 
@@ -31,6 +32,31 @@ theorem inv_reachable (fuel : Nat) (P : Prog) (ls : List Line) (s : St)
     during its own call" or "insert: no impl": for every fuel, every program and every terminating run -/
 theorem safe (fuel : Nat) (P : Prog) (s : St) (h : runTop fuel P {} P.top = some s) : s.err = none :=
   (inv_reachable fuel P P.top s h).noerr
+
+/-- … also after the driver's `teardown()` (which destroys everything the program left alive, including
+    the pinned signal objects) -/
+theorem safe_driver (fuel : Nat) (P : Prog) (s s' : St) (h : runTop fuel P {} P.top = some s)
+    (ht : teardown fuel P s = some s') : s'.err = none :=
+  teardown_err fuel P s s' (inv_reachable fuel P P.top s h) ht
+
+/-- what the driver prints (`runProgram`, the function the correspondence check runs on every generated
+    program) never contains a `MODEL-ERROR` line: it is the fuel notice or the rendered trace plus the
+    final `live` line -/
+theorem driver_no_model_error (lines : List String) :
+    runProgram lines = ["MODEL-FUEL"] ∨
+    ∃ s : St, runProgram lines = (s.trace.reverse.map renderEvent) ++ [s!"0 final live={liveTotal s}"] := by
+  unfold runProgram
+  simp only
+  cases h1 : runTop defaultFuel (parseProg lines) {} (parseProg lines).top with
+  | none => left; rfl
+  | some s =>
+    simp only
+    cases h2 : teardown defaultFuel (parseProg lines) s with
+    | none => left; rfl
+    | some s' =>
+      right
+      have := safe_driver defaultFuel (parseProg lines) s s' h1 h2
+      exact ⟨s', by simp [this]⟩
 
 /-- the same for every prefix of the top-level operations -/
 theorem safe_prefix (fuel : Nat) (P : Prog) (ls : List Line) (s : St) (h : runTop fuel P {} ls = some s) :
